@@ -81,9 +81,34 @@ func (vc *VC) initialState() *State {
 		t := Term{quote(strings.Trim(n, "|") + "@0"), info.Sort}
 		vc.declare("heap0:"+n, fmt.Sprintf("(declare-const %s %s)", t.S, info.Sort))
 		st.heaps[n] = t
+		vc.entryHeapFacts(info, t)
 	}
 	vc.errorSentinels(st)
 	return st
+}
+
+// entryHeapFacts states, for heaps holding references, that everything stored
+// in the entry heap was allocated before the call (is below the entry
+// watermark) and is well formed for its type.
+func (vc *VC) entryHeapFacts(info *HeapInfo, h Term) {
+	if info.Typ == nil {
+		return
+	}
+	switch info.Typ.Underlying().(type) {
+	case *types.Pointer, *types.Slice, *types.Map, *types.Chan:
+	default:
+		return
+	}
+	wm0 := Term{"wm0", SInt}
+	key := "entryfacts:" + info.Name
+	switch info.Kind {
+	case "field", "ptr":
+		v := sel(h, Term{"er", SInt})
+		vc.declare(key, fmt.Sprintf("(assert (forall ((er Int)) (! %s :pattern (%s))))", vc.typeFacts(v, info.Typ, wm0).S, v.S))
+	case "elem":
+		v := sel(sel(h, Term{"er", SInt}), Term{"ei", SInt})
+		vc.declare(key, fmt.Sprintf("(assert (forall ((er Int) (ei Int)) (! %s :pattern (%s))))", vc.typeFacts(v, info.Typ, wm0).S, v.S))
+	}
 }
 
 // errorSentinels: package-level error variables are treated as immutable,
